@@ -82,8 +82,34 @@ pub fn nearest_to_zero(lo: f64, hi: f64) -> f64 {
     }
 }
 
-/// margin + exact value of a function at a state
+#[derive(Clone, Debug)]
+pub struct EvalOpts {
+    /// the SDK may have dropped sub-epsilon coefficients while transforming the function
+    /// (documented behaviour): widen every margin by EPS * prod max(|v|,1) per raw term
+    pub drop_allowance: bool,
+    /// multiply rounding margins (several rounding steps instead of one)
+    pub scale: f64,
+    /// magnitudes to use for the condition number instead of |value| (the SDK evaluates a
+    /// *composed* function whose intermediate magnitudes are those of the replacements' terms);
+    /// when set, nothing is claimed to be exact
+    pub mag: Option<BTreeMap<u64, f64>>,
+    /// magnitudes (floored at 1, coefficients floored at 1) that bound how much a dropped
+    /// sub-epsilon coefficient can be amplified by the remaining factors
+    pub mag1: Option<BTreeMap<u64, f64>>,
+}
+
+impl Default for EvalOpts {
+    fn default() -> Self {
+        EvalOpts { drop_allowance: false, scale: 1.0, mag: None, mag1: None }
+    }
+}
+
 pub fn eval_with_margin(f: &v1::Function, state: &v1::State) -> Result<(Q, f64), MReject> {
+    eval_with_margin_opts(f, state, &EvalOpts::default())
+}
+
+/// margin + exact value of a function at a state
+pub fn eval_with_margin_opts(f: &v1::Function, state: &v1::State, o: &EvalOpts) -> Result<(Q, f64), MReject> {
     let raw = raw_terms(f);
     for (ids, _) in &raw {
         for id in ids {
@@ -95,19 +121,40 @@ pub fn eval_with_margin(f: &v1::Function, state: &v1::State) -> Result<(Q, f64),
     let qs = qstate(state);
     let p = Poly::from_function(f);
     let v = p.eval(&qs).unwrap();
-    if eval_is_provably_exact(&raw, state) {
-        return Ok((v, 0.0));
+    let magv = |i: &u64| -> f64 {
+        let base = state.entries[i].abs();
+        match &o.mag {
+            Some(m) => m.get(i).copied().unwrap_or(base).max(base),
+            None => base,
+        }
+    };
+    let magv1 = |i: &u64| -> f64 {
+        let base = magv(i).max(1.0);
+        match &o.mag1 {
+            Some(m) => m.get(i).copied().unwrap_or(base).max(base),
+            None => base,
+        }
+    };
+    let mut allowance = 0.0;
+    if o.drop_allowance {
+        for (ids, c) in &raw {
+            allowance += f64::EPSILON * c.abs().max(1.0) * ids.iter().map(magv1).product::<f64>() + f64::EPSILON;
+        }
+        allowance *= if o.mag1.is_some() { 16.0 } else { 2.0 };
+    }
+    if o.mag.is_none() && eval_is_provably_exact(&raw, state) {
+        return Ok((v, allowance));
     }
     let mut abs = Q::zero();
     for (ids, c) in &raw {
-        let mut tq = q(*c);
+        let mut tq = q(*c).abs();
         for id in ids {
-            tq *= qs.get(id).unwrap();
+            tq *= q(magv(id));
         }
-        abs += tq.abs();
+        abs += tq;
     }
     let deg = raw.iter().map(|(k, _)| k.len()).max().unwrap_or(0);
-    Ok((v, eval_tol(raw.len(), deg, &abs)))
+    Ok((v, eval_tol(raw.len(), deg, &abs) * o.scale + allowance))
 }
 
 fn holds(equality: i32, v: &Q, margin: f64, id: u64) -> Result<Option<bool>, MReject> {
@@ -142,9 +189,9 @@ fn smap(m: &std::collections::HashMap<String, String>) -> BTreeMap<String, Strin
     m.iter().map(|(k, v)| (k.clone(), v.clone())).collect()
 }
 
-fn eval_constraint(c: &v1::Constraint, removed: Option<(String, BTreeMap<String, String>)>, state: &v1::State) -> Result<MCons, MReject> {
+fn eval_constraint(c: &v1::Constraint, removed: Option<(String, BTreeMap<String, String>)>, state: &v1::State, o: &EvalOpts) -> Result<MCons, MReject> {
     let f = c.function.clone().unwrap_or_else(|| crate::mk::fconst(0.0));
-    let (value, margin) = eval_with_margin(&f, state)?;
+    let (value, margin) = eval_with_margin_opts(&f, state, o)?;
     let h = holds(c.equality, &value, margin, c.id)?;
     Ok(MCons {
         id: c.id,
@@ -161,7 +208,7 @@ fn eval_constraint(c: &v1::Constraint, removed: Option<(String, BTreeMap<String,
     })
 }
 
-fn and_all(it: impl Iterator<Item = Option<bool>>) -> Option<bool> {
+pub fn and_all(it: impl Iterator<Item = Option<bool>>) -> Option<bool> {
     // false if any is definitely false; None if undecided and none false; else true
     let mut undecided = false;
     for x in it {
@@ -180,6 +227,10 @@ fn and_all(it: impl Iterator<Item = Option<bool>>) -> Option<bool> {
 
 /// Reference evaluation of an instance at a state.
 pub fn evaluate(inst: &v1::Instance, state: &v1::State) -> Result<MSolution, MReject> {
+    evaluate_opts(inst, state, &EvalOpts::default())
+}
+
+pub fn evaluate_opts(inst: &v1::Instance, state: &v1::State, o: &EvalOpts) -> Result<MSolution, MReject> {
     // 1. bounds of every given value whose id is a defined variable
     let mut bounds: BTreeMap<u64, (f64, f64)> = BTreeMap::new();
     for v in &inst.decision_variables {
@@ -219,19 +270,19 @@ pub fn evaluate(inst: &v1::Instance, state: &v1::State) -> Result<MSolution, MRe
     // 2. constraints
     let mut cons = vec![];
     for c in &inst.constraints {
-        cons.push(eval_constraint(c, None, state)?);
+        cons.push(eval_constraint(c, None, state, o)?);
     }
     for rc in &inst.removed_constraints {
         let Some(c) = &rc.constraint else {
             return Err(MReject::Borderline("removed constraint without constraint".into()));
         };
-        cons.push(eval_constraint(c, Some((rc.removed_reason.clone(), smap(&rc.removed_reason_parameters))), state)?);
+        cons.push(eval_constraint(c, Some((rc.removed_reason.clone(), smap(&rc.removed_reason_parameters))), state, o)?);
     }
     let feasible_relaxed = and_all(cons.iter().filter(|c| c.removed.is_none()).map(|c| c.holds));
     let feasible = and_all(cons.iter().map(|c| c.holds));
     // 3. objective
     let obj = inst.objective.clone().unwrap_or_else(|| crate::mk::fconst(0.0));
-    let (objective, objective_margin) = eval_with_margin(&obj, state)?;
+    let (objective, objective_margin) = eval_with_margin_opts(&obj, state, o)?;
     // 4. state completion
     let mut st: BTreeMap<u64, (Q, f64)> = state.entries.iter().map(|(k, v)| (*k, (q(*v), 0.0))).collect();
     let mut fst = state.clone(); // f64 view for margins of dependent values
@@ -241,7 +292,7 @@ pub fn evaluate(inst: &v1::Instance, state: &v1::State) -> Result<MSolution, MRe
             fst.entries.insert(v.id, x);
         }
     }
-    let deps = eval_dependencies(&inst.decision_variable_dependency, &mut st, &mut fst)?;
+    let deps = eval_dependencies(&inst.decision_variable_dependency, &mut st, &mut fst, o)?;
     let _ = deps;
     for v in &inst.decision_variables {
         if !st.contains_key(&v.id) {
@@ -264,6 +315,7 @@ pub fn eval_dependencies(
     deps: &std::collections::HashMap<u64, v1::Function>,
     st: &mut BTreeMap<u64, (Q, f64)>,
     fst: &mut v1::State,
+    o: &EvalOpts,
 ) -> Result<Vec<u64>, MReject> {
     let mut pending: BTreeMap<u64, &v1::Function> = deps.iter().map(|(k, v)| (*k, v)).collect();
     let mut order = vec![];
@@ -282,7 +334,7 @@ pub fn eval_dependencies(
                 let qs: QState = ids.iter().map(|i| (*i, st[i].0.clone())).collect();
                 let v = Poly::from_function(f).eval(&qs).unwrap();
                 // margin: rounding of this evaluation plus propagated input margins (first order, generous)
-                let (_, m0) = eval_with_margin(f, fst).map_err(|_| MReject::Dependency)?;
+                let (_, m0) = eval_with_margin_opts(f, fst, o).map_err(|_| MReject::Dependency)?;
                 let mut m = m0;
                 let raw = raw_terms(f);
                 for (tids, c) in &raw {
